@@ -58,6 +58,7 @@ type Stats struct {
 	Property   string           `json:"property"`
 	Runs       int              `json:"runs"`
 	Invalid    int              `json:"invalid"`
+	Skipped    int              `json:"skipped"`
 	Nontrivial int              `json:"nontrivial"`
 	Steps      int64            `json:"steps"`
 	Evals      int64            `json:"evals"`
@@ -351,7 +352,7 @@ func doBatch() {
 				break
 			}
 		}
-		if hashOut != nil && complete {
+		if hashOut != nil && complete && !out.Skipped {
 			var hbuf []byte
 			hbuf = binary.LittleEndian.AppendUint64(hbuf, idx)
 			hbuf = binary.LittleEndian.AppendUint64(hbuf, recHash)
@@ -373,6 +374,15 @@ func doBatch() {
 // account folds one execution into the batch statistics; it returns true if
 // the batch must stop (a violation was found).
 func account(st *Stats, hll *core.HLL, e *props.Env, idx uint64, out *props.Outcome, values []int, hashOut *os.File) bool {
+	if out.Skipped {
+		st.Skipped++
+		for k, v := range out.Probes {
+			if !strings.HasPrefix(k, "max_") {
+				st.Probes[k] += v
+			}
+		}
+		return false
+	}
 	st.Evals += int64(out.Evals)
 	st.Steps += int64(out.Steps)
 	if out.Invalid {
